@@ -899,3 +899,122 @@ def error_escapes(ctx: Ctx, f: FunctionInfo, n: Node, cls: str = "OSError") -> T
             return False, f"swallowed by `except {','.join(handler_classes(h))}` at line {hn.lineno}"
         frames = list(hn.frames)  # the re-raise travels outward from the handler
     return False, "too deep"
+
+
+# ------------------------------------------------------------ path-sensitive exploration with a finite predicate store
+class Sym:
+    """A boolean atom the scenario evaluator cannot decide (a comparison with a clock / stat value, an opaque call).
+    Identified by the AST node it was first seen as; `neg` = logical negation of that atom."""
+    def __init__(self, key: int, neg: bool = False, text: str = "") -> None:
+        self.key, self.neg, self.text = key, neg, text
+
+    def __repr__(self) -> str:
+        return ("!" if self.neg else "") + f"sym{self.key}"
+
+
+def _sym_of(e: ast.AST) -> Optional[Sym]:
+    neg = False
+    while True:
+        if isinstance(e, ast.UnaryOp) and isinstance(e.op, ast.Not):
+            neg, e = not neg, e.operand
+        elif isinstance(e, ast.Call) and isinstance(e.func, ast.Name) and e.func.id == "bool" and len(e.args) == 1:
+            e = e.args[0]
+        else:
+            break
+    if isinstance(e, (ast.Compare, ast.Call, ast.BoolOp, ast.Attribute, ast.Subscript)):
+        return Sym(id(e), neg, norm_text(e)[:40])
+    return None
+
+
+def explore(ctx: Ctx, f: FunctionInfo, starts: Iterable[int], env: Optional[Dict[str, object]] = None,
+            assume: Optional[Dict[int, bool]] = None, stop: Iterable[int] = (), watch: Iterable[int] = (),
+            max_states: int = 6000) -> List[Tuple[int, Dict[object, object], Dict[int, bool]]]:
+    """Path-sensitive walk over the normal edges of f's CFG (ESP-style property simulation): each state is a node plus a
+    finite store {variable -> constant | Sym} and a set of assumptions {atom -> bool}.  Assignments of evaluable
+    expressions update the store, an undecidable branch forks and records the assumption (so a flag tested twice is
+    consistent), the return value of a helper analysed in place is carried to the assignment of its call.
+    Returns [(end node, store, assumptions)] for every path that reaches a `stop` node or the exit; store[('seen', n)]
+    is True when watch node n was passed."""
+    g = ctx.cfg(f)
+    env = dict(env or {})
+    stop_set, watch_set = set(stop), set(watch)
+    ret_call = {nid: cid for cid, lst in g.inline_returns.items() for (_e, nid) in lst}
+    results: List[Tuple[int, Dict[object, object], Dict[int, bool]]] = []
+    work: List[Tuple[int, Dict[object, object], Dict[int, bool]]] = [(s, {}, dict(assume or {})) for s in starts]
+    seen: Set[Tuple[int, frozenset, frozenset]] = set()
+
+    def value_of(e: Optional[ast.AST], at: int, store: Dict[object, object]) -> object:
+        if e is None:
+            return None
+        if isinstance(e, ast.Call) and id(e) in g.inline_returns:
+            return store.get(("ret", id(e)), UNKNOWN)
+        if isinstance(e, ast.Name) and e.id in store:
+            return store[e.id]
+        scen = dict(env)
+        scen.update({k: v for k, v in store.items() if isinstance(k, str) and not isinstance(v, Sym)})
+        v = concrete_eval(ctx, f, e, scen, at)
+        if v is UNKNOWN:
+            inner = e
+            s_ = _sym_of(inner)
+            if s_ is not None:
+                # `not flag` / `bool(flag)` of a symbolic flag
+                base = inner
+                neg = False
+                while isinstance(base, ast.UnaryOp) and isinstance(base.op, ast.Not):
+                    neg, base = not neg, base.operand
+                if isinstance(base, ast.Name) and isinstance(store.get(base.id), Sym):
+                    sv = store[base.id]
+                    return Sym(sv.key, sv.neg != neg, sv.text)  # type: ignore[union-attr]
+                return s_
+            if isinstance(e, ast.UnaryOp) and isinstance(e.op, ast.Not) and isinstance(e.operand, ast.Name) \
+                    and isinstance(store.get(e.operand.id), Sym):
+                sv = store[e.operand.id]
+                return Sym(sv.key, not sv.neg, sv.text)  # type: ignore[union-attr]
+        return v
+
+    while work and len(seen) < max_states:
+        nid, store, asm = work.pop()
+        key = (nid, frozenset((repr(k), repr(v)) for k, v in store.items()), frozenset(asm.items()))
+        if key in seen:
+            continue
+        seen.add(key)
+        store = dict(store)
+        if nid in watch_set:
+            store[("seen", nid)] = True
+        if nid in stop_set or nid == g.exit:
+            results.append((nid, store, asm))
+            continue
+        n = g.nodes[nid]
+        a = n.ast
+        if n.kind == "stmt" and isinstance(a, ast.Assign) and len(a.targets) == 1 and isinstance(a.targets[0], ast.Name):
+            store[a.targets[0].id] = value_of(a.value, nid, store)
+        elif n.kind == "stmt" and isinstance(a, ast.Return) and nid in ret_call:
+            store[("ret", ret_call[nid])] = value_of(a.value, nid, store)
+        elif n.kind == "stmt" and isinstance(a, (ast.AugAssign,)) and isinstance(a.target, ast.Name):
+            store[a.target.id] = UNKNOWN
+        if n.kind == "branch" and a is not None:
+            v = value_of(a, nid, store)
+            if isinstance(v, Sym):
+                if v.key in asm:
+                    v = asm[v.key] != v.neg
+                else:
+                    for lab in ("true", "false"):
+                        t = edge_target(g, n, lab)
+                        if t is not None:
+                            asm2 = dict(asm)
+                            asm2[v.key] = (lab == "true") != v.neg
+                            work.append((t, store, asm2))
+                    continue
+            if v is UNKNOWN:
+                for d, l in g.succ[nid]:
+                    if l in NORMAL:
+                        work.append((d, store, asm))
+                continue
+            t = edge_target(g, n, "true" if v else "false")
+            if t is not None:
+                work.append((t, store, asm))
+            continue
+        for d, l in g.succ[nid]:
+            if l in NORMAL:
+                work.append((d, store, asm))
+    return results
